@@ -68,6 +68,10 @@ class C14(Check):
                       for _ in range(rng.randint(1, 10))]
             # the AL status code register read along with every status: often 0 (terminals that never fill it in)
             out.append({"target": target, "replies": rs, "codes": [rng.choice([0, 0, 0x1e, 0x55, 0x8000]) for _ in rs]})
+            if len(out) % 3 == 0:
+                # the same Terminal object had been brought to this target before (by a conformant terminal); since then the
+                # terminal has changed state on its own - the second call must look again
+                out[-1]["prior"] = True
         if self.tier == "thorough":
             for target in (2, 4, 8):
                 for L in range(1, 6):
@@ -81,10 +85,18 @@ class C14(Check):
         trace = []
         replies = list(case["replies"])
         codes = list(case.get("codes") or [0x55] * len(replies))
+        prior = {"on": False, "state": 1}
 
         class FakeEc:
             async def roundtrip(self, cmd, pos, offset, *args, data=None, idx=0):
                 await asyncio.sleep(0)
+                if prior["on"]:
+                    if cmd is ECCmd.FPRD and offset == 0x130:
+                        return (prior["state"], 0)
+                    if cmd is ECCmd.FPWR and offset == 0x120:
+                        prior["state"] = args[1] & 15
+                        return ()
+                    raise AssertionError((cmd, offset))
                 if cmd is ECCmd.FPRD and offset == 0x130:
                     if not replies:
                         raise OutOfReplies()
@@ -99,6 +111,10 @@ class C14(Check):
         async def go():
             t = Terminal(FakeEc())
             t.position = 1234
+            if case.get("prior"):
+                prior["on"] = True
+                await t.to_operational(MachineState(case["target"]))
+                prior["on"] = False
             try:
                 ret = await t.to_operational(MachineState(case["target"]))
             except EtherCatError:
@@ -122,8 +138,9 @@ class C14(Check):
         r0 = case["replies"][0]
         if (r0 & 15) not in (1, 2, 4, 8):
             return True   # outside the quantifier (BOOTSTRAP / invalid start)
-        if trace[0] != [1, r0]:
-            return "did not start by reading the state"
+        if not trace or trace[0] != [1, r0]:
+            return ("did not start by reading the state" + (" (second call on a Terminal object that had reached this target before: it returned "
+                                                             "without looking at the terminal)" if case.get("prior") else ""))
         rest = trace[1:]
         start = r0 & 15
         if r0 & 0x10:
@@ -180,6 +197,7 @@ class C14(Check):
     def rule(self):
         return ("75% structured terminal behaviours (start state, optional initial error, 0-3 polls per transition, error at a random poll, truncated streams), "
                 "25% unstructured status-word streams incl. invalid states and regressions; thorough adds all streams of length <= 5 over 6 words; "
+                "every third case on a Terminal object that a conformant terminal had already followed to the same target (the terminal has changed state on its own since); "
                 "non-trivial = at least two state requests written")
 
     def distribution(self, cases, observed):
